@@ -24,7 +24,7 @@ OutOf(s, op) ==
       [] op.op = "reject"  -> RejectOut(s, op.t, op.a, op.by)
       [] op.op = "data"    -> DataOut(s, op.a)
       [] op.op = "expire"  -> ExpireOut(s)
-      [] op.op = "throttleexpire" -> ThrottleExpireOut(s)
+      [] op.op \in {"throttleexpire", "throttlelift"} -> ThrottleExpireOut(s)
       [] op.op = "waiting" -> WaitingOut(s, op.a, IF "cid" \in DOMAIN op THEN op.cid ELSE 0, op.by)
       [] op.op = "indag"   -> InDagOut(s, op.a, IF "cid" \in DOMAIN op THEN op.cid ELSE 0, op.by)
       [] op.op = "balance" -> BalanceOut(s, op.a, op.d, op.by)
@@ -51,7 +51,12 @@ TNext ==
               LET o == OutOf(st, ev.op) IN
               /\ st' = o.s
               /\ obs' = [conf |-> /\ Count(ev.results, "ok") = (IF o.res = "ok" THEN 1 ELSE 0)
-                                  /\ o.s.awaiting = ToSet(ev.awaiting) /\ o.s.sealed = ToSet(ev.sealed),
+                                  /\ o.s.awaiting = ToSet(ev.awaiting) /\ o.s.sealed = ToSet(ev.sealed)
+                                  \* confirm / reject take the awaiting entry out of the cache in one step: whoever
+                                  \* comes second is answered exactly like a later repetition of the request, and in
+                                  \* particular never gets as far as the ledger
+                                  /\ ev.op.op \in {"confirm", "reject"} =>
+                                        \A k \in DOMAIN ev.results : ev.results[k] \in {o.res, OutOf(o.s, ev.op).res},
                          a |-> "burst"]
 TSpec == TInit /\ [][TNext]_<<st, pend, pos, obs>>
 
